@@ -12,7 +12,7 @@ RULE = ('one case = a byte string (random / zeros / periodic / low entropy, <= 4
         '[min,max] (incl. min=max, max<8, unaligned max) and 4..8 seeded segmentations (single piece, one-byte pieces, empty pieces anywhere, '
         'pieces of exactly max, max+-1..3, 2*max, random); the REAL Python adapter over the freshly compiled C++ cuts each segmentation three '
         'times with the bytes adjacent to the buffer (the <=3 bytes the window load may touch) set to zeros, 0xFF and seeded values and '
-        'interleaved with calls on other chunker instances and with a second stream being cut by the same adapter object. Oracles: concatenation = input and no empty chunk; chunks that begin more than '
+        'interleaved with calls on other chunker instances, with a second stream being cut by the same adapter object, and after earlier calls on that object under another key (as a value, and through a key buffer changed in place). Oracles: concatenation = input and no empty chunk; chunks that begin more than '
         '2*max before the end have min <= len <= max and len % 4 == 0; identical chunk lists under every adjacent-memory content and '
         'repetition; chunks outside the tail zone equal the pure-Python RefChunker for every segmentation. distinct_nontrivial = distinct '
         '(params, stream digest, segmentation digest) among streams with > 2*max bytes')
